@@ -24,7 +24,7 @@ if [ "$PATCH" != "-" ]; then
 fi
 # private copy of the harness with /repo paths rewritten
 mkdir -p "$BASE/verif"
-rsync -a --delete --exclude target /verif/harness/ "$BASE/verif/harness/"
+rsync -a --delete --exclude 'target*' /verif/harness/ "$BASE/verif/harness/"
 find "$BASE/verif/harness" -name Cargo.toml -exec sed -i "s|\"/repo/|\"$BASE/repo/|g" {} +
 # sources that name /repo paths (e.g. include_bytes!, fs::read of fixtures) keep reading /repo: fixtures only.
 cp /verif/known_findings.json "$BASE/verif/" 2>/dev/null
